@@ -7,7 +7,7 @@ if ! git apply --3way "$P" 2>/tmp/apply.err; then
   if ! git apply "$P" 2>>/tmp/apply.err; then echo "PATCH DOES NOT APPLY: $P"; cat /tmp/apply.err; git checkout -- . ; exit 8; fi
 fi
 git reset -q 2>/dev/null
-cd /verif && ./check "$ID" "$TIER" > /tmp/mutant.out 2>&1; rc=$?
+cd /verif && VERIF_WATCHDOG_S=${VERIF_WATCHDOG_S:-900} timeout 1800 ./check "$ID" "$TIER" > /tmp/mutant.out 2>&1; rc=$?
 git -C /repo checkout -- . ; git -C /repo clean -fdq -e tmp 2>/dev/null
 echo "rc=$rc $(grep -c '^VIOLATION' /tmp/mutant.out) VIOLATION lines; $(grep 'violating observations' /tmp/mutant.out | cut -c1-300)"
 grep -m2 -A1 '^VIOLATION' /tmp/mutant.out | grep what | cut -c1-300
